@@ -1,13 +1,80 @@
-(** C01 - Compiled filters compute exactly the jq semantics the manual defines.  (first stage) *)
+(** C01 - Compiled filters compute exactly the jq semantics the manual defines.
+    Model: Core/Compile.v + Core/Run.v (the compiler and the interpreter of jaq-core as a forest of definitions and three
+    fuel-structural evaluators), tied to the implementation by table and stream correspondence (checks/c01.py).
+    Proved here: the interpreter's clauses are the manual's stream equations (`,` appends, `|` binds, `try` replaces the
+    first error, `//`, `if`, `label`), and the algebra of these streams - the laws the manual states for filters - for
+    every stream however it ends.  Not yet proved: that the compiler's variable indexing implements named binding
+    ([compile_correct]); that part rests on the correspondence of tables and outputs. *)
 From Coq Require Import List FunctionalExtensionality.
-From JaqV Require Import Base.Stream.
+From JaqV Require Import Base.Stream Val.Val Val.Err Core.Syntax Core.Natives Core.Run Proofs.StreamLaws Proofs.MonadLaws.
 Import ListNotations.
 
-(** streams with a terminator form a monad with append: the laws the interpreter's combination order rests on *)
+(** ** the interpreter's clauses *)
+Theorem comma_appends : forall d nr defs n l r c v,
+  run d nr defs (S n) (KComma l r) c v = sapp (run d nr defs n l c v) (fun _ => run d nr defs n r c v).
+Proof. reflexivity. Qed.
+Print Assumptions comma_appends.
+
+Theorem pipe_binds : forall d nr defs n l r c v,
+  run d nr defs (S n) (KPipe l None r) c v = sbind (run d nr defs n l c v) (fun y => run d nr defs n r c y).
+Proof. reflexivity. Qed.
+Print Assumptions pipe_binds.
+
+Theorem bind_extends_the_context : forall d nr defs n l r c v,
+  run d nr defs (S n) (KPipe l (Some PatVar) r) c v = sbind (run d nr defs n l c v) (fun y => run d nr defs n r (cons_var y c) v).
+Proof. reflexivity. Qed.
+Print Assumptions bind_extends_the_context.
+
+Theorem if_selects_per_output : forall d nr defs n i t e c v,
+  run d nr defs (S n) (KIte i t e) c v = sbind (run d nr defs n i c v) (fun x => run d nr defs n (if as_bool x then t else e) c v).
+Proof. reflexivity. Qed.
+Print Assumptions if_selects_per_output.
+
+Theorem alternative_takes_truthy_outputs_or_the_right : forall d nr defs n l r c v,
+  run d nr defs (S n) (KAlt l r) c v
+  = match sfilter as_bool (run d nr defs n l c v) with SNil => run d nr defs n r c v | s => s end.
+Proof. reflexivity. Qed.
+Print Assumptions alternative_takes_truthy_outputs_or_the_right.
+
+Theorem label_catches_its_break : forall d nr defs n f c v,
+  run d nr defs (S n) (KLabel f) c v = slabel (labels (cons_label c)) (run d nr defs n f (cons_label c) v).
+Proof. reflexivity. Qed.
+Print Assumptions label_catches_its_break.
+
+Theorem array_collects_or_fails : forall d nr defs n f c v,
+  run d nr defs (S n) (KArr f) c v = collect_then (run d nr defs n f c v) (fun l => sone (Arr l)).
+Proof. reflexivity. Qed.
+Print Assumptions array_collects_or_fails.
+
+(** ** the algebra of the streams *)
 Theorem sapp_assoc : forall A (s : str A) r t,
   sapp (sapp s r) t = sapp s (fun _ => sapp (r tt) t).
-Proof.
-  intros A s r t. induction s as [|x k IH|e| |]; cbn; try reflexivity.
-  f_equal. apply functional_extensionality. intros []. apply IH.
-Qed.
+Proof. exact @MonadLaws.sapp_assoc'. Qed.
 Print Assumptions sapp_assoc.
+
+(** `. | f` = `f`;  `f | .` = `f`;  `(f | g) | h` = `f | (g | h)` *)
+Theorem identity_left : forall A B (x : A) (f : A -> str B), sbind (sone x) f = f x.
+Proof. exact @MonadLaws.sbind_sone_l. Qed.
+Print Assumptions identity_left.
+Theorem identity_right : forall A (s : str A), sbind s sone = s.
+Proof. exact @MonadLaws.sbind_sone_r. Qed.
+Print Assumptions identity_right.
+Theorem pipe_associative : forall A B C (s : str A) (f : A -> str B) (g : B -> str C),
+  sbind (sbind s f) g = sbind s (fun x => sbind (f x) g).
+Proof. exact @MonadLaws.sbind_assoc. Qed.
+Print Assumptions pipe_associative.
+
+(** `(f, g) | h` = `(f | h), (g | h)`;  `f, empty` = `f` *)
+Theorem pipe_distributes_over_comma : forall A B (s : str A) r (f : A -> str B),
+  sbind (sapp s r) f = sapp (sbind s f) (fun _ => sbind (r tt) f).
+Proof. exact @MonadLaws.sbind_sapp. Qed.
+Print Assumptions pipe_distributes_over_comma.
+Theorem empty_is_unit_of_comma : forall A (s : str A), sapp s (fun _ => SNil) = s.
+Proof. exact @MonadLaws.sapp_nil_r. Qed.
+Print Assumptions empty_is_unit_of_comma.
+
+(** `try`: the outputs before the first error stay, the handler runs on it, nothing after it is run *)
+Theorem try_replaces_the_first_error : forall A (xs : list A) e r (h : err -> str A),
+  stry (sapp (of_list xs) (fun _ => sapp (serr e) r)) h = sapp (of_list xs) (fun _ => h e).
+Proof. exact @MonadLaws.stry_prefix. Qed.
+Print Assumptions try_replaces_the_first_error.
